@@ -199,6 +199,25 @@ func (ld *Loaded) redirect(fn *ssa.Function) *ssa.Function {
 			m = rt.Func(name)
 		}
 	}
+	if fn.Pkg != nil && fn.Signature.Recv() != nil && m == nil {
+		// methods of dependencies: a harness may supply a model named
+		// VerifModel_<pkg>_<Type>_<Method>(recv, args...) in its own package
+		rt := fn.Signature.Recv().Type()
+		if p, ok := rt.(*types.Pointer); ok {
+			rt = p.Elem()
+		}
+		if named, ok := rt.(*types.Named); ok && !strings.HasPrefix(fn.Pkg.Pkg.Path(), "github.com/safing/portbase") {
+			name := "VerifModel_" + fn.Pkg.Pkg.Name() + "_" + named.Obj().Name() + "_" + fn.Name()
+			for path, pkg := range ld.pkgs {
+				if strings.HasPrefix(path, "github.com/safing/portbase") {
+					if f := pkg.Func(name); f != nil {
+						m = f
+						break
+					}
+				}
+			}
+		}
+	}
 	ld.redirCache[fn] = m
 	return m
 }
